@@ -228,7 +228,8 @@ def havoc_loop_state(eng, nodes, fr, spec, extra_names=()):
         if isinstance(v, (SArr, NArr, PList, PDict, Obj, DictListRef)):
             havoc_value(eng, v, done)
     for extra in (spec or {}).get("modifies", []):
-        v = eng.ev(ast.parse(extra, mode="eval").body, fr)
+        # an expression over the loop's frame, or a callable E -> object (ghost state that no program variable names)
+        v = extra(eng) if callable(extra) else eng.ev(ast.parse(extra, mode="eval").body, fr)
         havoc_value(eng, v, done)
     for nm in sorted(names):
         f = fr
